@@ -6,6 +6,6 @@ From H3V Require Model.Settings.
 Extraction Language OCaml.
 Extraction "C04_model.ml"
   N.add N.mul N.div_eucl N.ltb N.leb N.eqb
-  new_drv step run_history built conn_of world_of
+  new_drv step run_history built blocked conn_of world_of
   Settings.a_dg Settings.a_ec Settings.a_wt
   uni_spec allowed_errors must_fail rfc_receive.
